@@ -24,8 +24,8 @@ LEVEL_TEXT = ('The decoder is compared line by line with a reference decoder wri
               'one-nibble deviation, and the table as read by the repository is compared with an independent scan.')
 LEVEL_NOTE = ('PTE values outside the derived alphabets and header syntax beyond the shipped style are not explored; CPython '
               '%-formatting trusted')
-RULE = ('synthetic: tables = all sequences of length 0..2 (quick) / 0..3 (thorough) over 18 (pattern, message, params) entries (incl. multi-digit parameter numbers, a non-wildcard metacharacter, reported-error catch-all), '
-        'each in 2 syntax variants; data = blob of all 336 alphabet entries, the reversed blob with all-zero entries '
+RULE = ('synthetic: tables = all sequences of length 0..2 (quick) / 0..3 (thorough) over 25 (pattern, message, params) entries (incl. multi-digit parameter numbers, a non-wildcard metacharacter, reported-error catch-all), '
+        'each in 2 syntax variants; data = blob of all alphabet entries, the reversed blob with all-zero entries '
         'interleaved, each with trailing partial lengths 0..7. shipped: per table entry, wildcard runs filled jointly with '
         '{0,1,4,5,9,A,F} x reported bit {as is,set,clear} x top nibble {as is,E}; literal patterns x 8 positions x 2 '
         'replacement nibbles. Non-trivial: a decoded entry whose expected description is not "Undefined"; distinct by '
@@ -57,6 +57,10 @@ ALPHA = [
     ('0104**00', 'hex literal parameter %d', ['0x1A']),
     ('0104****', 'byte four %d, minus one, hex three %d', [4, '-1', '0x3']),
     ('0105****', 'leading zeros: byte three %d, byte four %d', ['03', '004']),
+    # a description without (valid) parameters is still a format string: an escaped per cent sign is one per cent sign
+    ('0106**00', 'fan duty 100%% - full speed', []),
+    ('0106****', 'escaped %% and a discarded parameter', [7]),
+    ('E6******', 'reported at the 50%% threshold', []),
 ]
 TS = [0, 1, 3599, 3600, 65534, 65535]
 SEQ = [0, 0xBEEF]
@@ -70,7 +74,8 @@ def pte_alphabet():
                 for n7 in (0, 1):
                     out.append((n0 << 28) | (n1 << 24) | (n3 << 16) | n7)
     out += [0x01004142, 0x01014142, 0x0101FF00, 0xFFFFFFFF, 0x00000000, 0xE1040000, 0xE1000000, 0xE0041234, 0xF0040000, 0xE20C0190, 0xE2080190, 0xE30C7704, 0xE3087704,
-            0x01022A00, 0x01022A2B, 0x01042A00, 0x01042A2B, 0x01052A2B, 0x0103A000, 0x01030000, 0xE4040000, 0xE4000000, 0xEF0C0001]
+            0x01022A00, 0x01022A2B, 0x01042A00, 0x01042A2B, 0x01052A2B, 0x0103A000, 0x01030000, 0xE4040000, 0xE4000000, 0xEF0C0001,
+            0x01062A00, 0x01062A2B, 0xE60C7704, 0xE6087704]
     return out
 
 
